@@ -8,14 +8,18 @@ PROP = dict(
          'the quick tier, complete in the thorough tier). Plus a plain stress property without hooks (2000..30000 tight start/stop rounds, also in an optimised unsanitised build) for interleavings the points cannot produce. Oracle: (S) at the instant stop() returns the body is not executing and the entry count '
          'does not change until start() is next called (compared once the loop thread has gone to sleep); (L) after start() returns the entry count '
          'increases within 10 s; (D) in THREAD mode nothing runs at/after destructor return; (T) the destructor returns (watchdog). '
+         'Plus DELAY SCHEDULES (every arrival at a point is delayed by a per-case amount from {0,20us,200us,1ms,3ms}; random vectors over all 29 points with programs of <= 48 ops, '
+         'and a complete enumeration of all quadruples {2 loop-thread points} x {2 of the 11 start/stop controller points} at 200us over two programs of 12 back-to-back stop/start pairs - '
+         'several ordering constraints at once, which <= 3 pause rules cannot express). Plus long bodies: THREAD/TASK x stop()/destructor against a body invocation that still runs for '
+         '{0.3, 2.5} s (thorough: also 5.5, 11, 31 s). '
          'non-trivial = at least one pause rule fired (its thread arrived and was held) and the program contains a stop or destroy after a start; '
          'distinct by hash of the case',
     floor=dict(quick=300, thorough=3000),
     serial=True,
     confirm_replays=8,
     assumptions=TRUST + ['fidelity of the scheduling points: interleavings that need a pre-emption between two points, or more than 3 coordinated '
-                         'holds, are not reached', 'liveness clauses use 10 s budgets and must reproduce in isolated replays'],
-    bins=[rc('C03_asyncloop', 'harness/C03_asyncloop.cpp', 'tbb-asan', hang_s=40, thorough=dict(scale=6, seeds=4)),
+                         'holds (beyond the enumerated delay quadruples), are not reached', 'liveness clauses use 10 s budgets and must reproduce in isolated replays'],
+    bins=[rc('C03_asyncloop', 'harness/C03_asyncloop.cpp', 'tbb-asan', hang_s=90, thorough=dict(scale=6, seeds=4)),
           # the same harness, optimised and unsanitised, stress property only: hardware reorderings need full speed
           rc('C03_stress_o2', 'harness/C03_asyncloop.cpp', 'tbb-o2', san='', opt='-O2 -g', flags='-DC03_BIN=\\"C03_stress_o2\\"',
              env={'C03_STRESS_ONLY': '1'}, hang_s=40, quick=dict(scale=3), thorough=dict(scale=30, seeds=4))],
